@@ -458,6 +458,11 @@ def one_case(case, res, sigs, lines, metas):
             res["hist"]["gap:" + case["gap_style"]] = res["hist"].get("gap:" + case["gap_style"], 0) + 1
             lines.append(line)
             metas.append((case, data, bounds))
+            # a few small cases also through the MINUTE-GRID model (the algorithm as_freq runs; proved equal to the closed form)
+            if case["freq"] == 60 and len(idx) <= 24 * 10 and res["hist"].get("minute_grid_cases", 0) < 6:
+                res["hist"]["minute_grid_cases"] = res["hist"].get("minute_grid_cases", 0) + 1
+                lines.append(line.replace("resample subdaily ", "resample subdaily_min ", 1))
+                metas.append((dict(case, model="minute_grid"), data, bounds))
         else:
             fails = run_daily(case)
             sigs.add(("daily", case["tz"], case["entry"], case["cls"], bool(case["missing"])))
@@ -563,7 +568,8 @@ LEVEL_TEXT = ("Lean 4 theorems over exact rationals about the interval form of a
 LEVEL_NOTE = ("Hand model (closed interval form, not a port of the pandas calls); local-day boundaries are computed by the harness (zoneinfo) and "
               "are an input of the model; the read-calendar glue of from_series/_compute_meter_value_df (trimming, final-NaN convention, granularity "
               "detection) is validated by T2 only. Float results are compared with the exact rationals at 1e-9 relative.")
-TECHNIQUE = ("Lean 4 proof (telescoping-overlap induction over day boundaries, exact rationals; the row masks of clean_billing_data / "
+TECHNIQUE = ("Lean 4 proof (telescoping-overlap induction over day boundaries, exact rationals; refinement proof that the minute-grid "
+             "algorithm of as_freq - spread, forward fill, per-day sum and count - equals the closed interval-overlap form; the row masks of clean_billing_data / "
              "downsample_and_clean_daily_data translated from the source on every run are proved equal to the model's rules) + differential "
              "correspondence with the data classes")
 ASSUMPTIONS = ["local midnights supplied by the harness (IANA database via pandas) are the day boundaries the data classes use",
